@@ -134,7 +134,8 @@ PROPS = {
                  "reference HMAC over the reference prefix with adjusted length, untampered accepted through both paths "
                  "(validating decoder returning the attribute; validate(get_input_text())), NOT accepted after every "
                  "single-bit flip of bytes [0,2)+[4,off)+MAC (exhaustive for messages <= 280 bytes, 24 sampled positions "
-                 "for larger), NOT accepted under keys differing in one character of password/user/realm, the other "
+                 "for larger) and after compound faults (the same mask on two bytes 4k apart / adjacent - all such MAC "
+                 "pairs when exhaustive -, MAC + prefix pairs, swapped MAC bytes), NOT accepted under keys differing in one character of password/user/realm, the other "
                  "derivation algorithm or the other mechanism; reference-appended SHA256/FINGERPRINT must not invalidate. "
                  "Non-trivial = every message (all carry integrity); distinct = hash of encoded bytes."),
         "assumptions": [STABLE + "; one third of the keys additionally use non-ASCII spaces and base+combining-mark "
@@ -142,7 +143,7 @@ PROPS = {
                         "U+0020, NFC) is tabulated in the generator; short-term passwords include the HMAC block-size "
                         "boundary (63/64/65/66, 127-129, 200 bytes)",
                         "a random 160/256-bit MAC collision is treated as impossible"],
-        "min_counters": {"faults.rejected": 100000, "wrong-key.rejected": 1000, "untampered.accepted": 1000,
+        "min_counters": {"faults.rejected": 100000, "faults.compound-rejected": 20000, "wrong-key.rejected": 1000, "untampered.accepted": 1000,
                          "appended.still-valid": 300, "vectors.accepted": 5},
     },
     "C16": {
